@@ -9,6 +9,7 @@ package pubsub
 // cannot catch at all.
 
 import (
+	"context"
 	"crypto/sha256"
 	"encoding/binary"
 	"fmt"
@@ -37,8 +38,19 @@ func TestVerifC20Node(t *testing.T) {
 				return int((x >> 33) % 6)
 			}}
 			hashID := c.Chance(0.5)
-			opts := []Option{WithDefaultValidator(NewBasicSeqnoValidator(store, c20Discard)), WithSeenMessagesTTL(time.Second),
+			// the seqno validator runs inline or asynchronously, alone or followed by validators that accept everything
+			// (its Ignore must survive whatever the others say)
+			seqInline := c.Chance(0.5)
+			acceptAll := func(context.Context, peer.ID, *Message) ValidationResult { return ValidationAccept }
+			opts := []Option{WithDefaultValidator(NewBasicSeqnoValidator(store, c20Discard), WithValidatorInline(seqInline)), WithSeenMessagesTTL(time.Second),
 				WithValidateWorkers(c.Range(1, 8))}
+			companions := ""
+			if c.Chance(0.6) {
+				in := c.Chance(0.6)
+				opts = append(opts, WithDefaultValidator(acceptAll, WithValidatorInline(in)))
+				companions += fmt.Sprintf("default(inline=%v) ", in)
+			}
+			topicCompanion, topicCompanionInline := c.Chance(0.5), c.Chance(0.6)
 			if hashID {
 				opts = append(opts, WithMessageIdFn(func(m *pb.Message) string { b, _ := m.Marshal(); h := sha256.Sum256(b); return string(h[:]) }))
 			}
@@ -53,6 +65,11 @@ func TestVerifC20Node(t *testing.T) {
 				return
 			}
 			nd, me := r.nd, r.nd.ID()
+			if topicCompanion {
+				nd.ps.RegisterTopicValidator("t", acceptAll, WithValidatorInline(topicCompanionInline))
+				companions += fmt.Sprintf("topic(inline=%v)", topicCompanionInline)
+			}
+			c.Logf("seqno validator inline=%v, accepting companions: %s", seqInline, companions)
 			sub, err := nd.ps.Subscribe("t")
 			if err != nil {
 				panic(err)
@@ -155,12 +172,17 @@ func TestVerifC20Node(t *testing.T) {
 				}
 				perAuthor[d.author] = append(perAuthor[d.author], d.seq)
 			}
+			// The statement orders acceptances (the store's Put sequence, checked below), not deliveries: two messages
+			// accepted in increasing order by concurrent validations may reach the subscription the other way round.
+			// What delivery can show is a replay: the same (author, seqno) twice, or a delivered number that was never stored.
 			for a, seqs := range perAuthor {
-				for i := 1; i < len(seqs); i++ {
-					if seqs[i] <= seqs[i-1] {
-						fail(map[string]string{"kind": "replay_delivered"}, "author %s: delivered seqnos %v are not strictly increasing", r.Name(a), seqs)
+				seen := map[uint64]bool{}
+				for _, q := range seqs {
+					if seen[q] {
+						fail(map[string]string{"kind": "replay_delivered"}, "author %s: seqno %d was delivered twice (delivered: %v)", r.Name(a), q, seqs)
 						break
 					}
+					seen[q] = true
 				}
 			}
 			// forwarded = delivered
@@ -232,7 +254,7 @@ func TestVerifC20Node(t *testing.T) {
 			}
 			c.Count("messages_sent", nonce)
 			c.Count("delivered", len(dl))
-			c.Sig(hashID, nP, rounds, len(dl), short)
+			c.Sig(hashID, nP, rounds, len(dl), short, seqInline, companions)
 			c.Nontrivial(len(dl) >= 1 && nonce > len(dl))
 			if c.Idx < 3 {
 				h := hist
